@@ -403,26 +403,46 @@ func (r *runner) shrink(o Outcome) Outcome {
 	if o.At >= 0 && o.At+1 < len(h) {
 		h = h[:o.At+1]
 	}
-	budget := 400
-	for chunk := len(h) / 2; chunk >= 1 && budget > 0; {
+	budget := 600
+	try := func(cand []Zs) bool {
+		if budget <= 0 {
+			return false
+		}
+		budget--
+		res, _, err := r.runOne(cand, true)
+		if err == nil && sameFailure(res, o) {
+			if res.At >= 0 && res.At+1 < len(cand) {
+				cand = cand[:res.At+1]
+				res.History = cand
+			}
+			h = cand
+			best = res
+			return true
+		}
+		return false
+	}
+	for chunk := (len(h) + 1) / 2; chunk >= 1 && budget > 0; {
 		progress := false
-		for i := 0; i+chunk <= len(h) && budget > 0; {
-			cand := append(append([]Zs(nil), h[:i]...), h[i+chunk:]...)
-			budget--
-			res, _, err := r.runOne(cand, true)
-			if err == nil && sameFailure(res, o) {
-				h = cand
-				best = res
+		for i := 0; i < len(h) && budget > 0; {
+			end := i + chunk
+			if end > len(h) {
+				end = len(h)
+			}
+			cand := append(append([]Zs(nil), h[:i]...), h[end:]...)
+			if len(cand) > 0 && try(cand) {
 				progress = true
 			} else {
 				i += chunk
 			}
 		}
-		if !progress || chunk > len(h) {
-			chunk /= 2
+		if chunk == 1 && !progress {
+			break
 		}
-		if chunk > len(h)/2 && chunk > 1 {
-			chunk = len(h) / 2
+		if !progress || chunk > len(h) {
+			chunk = chunk / 2
+		}
+		if chunk < 1 && len(h) > 0 {
+			break
 		}
 	}
 	if len(best.Trace) == 0 {
